@@ -8,7 +8,7 @@ COQ_FILES = ["Props/C05.v", "Props/C05_scale.v", "Obl/DispatchOk.v", "Obl/EnumsO
 
 
 def correspondence(ctx):
-    n = 400 if ctx.tier == "thorough" else 50
+    n = 400 if ctx.tier == "thorough" else 52
     CC.run_sessions(ctx, "C05", n, lambda rng: dict(n_events=rng.choice([40,70]), burst=0.3, fault=0.12, bad=0.05, resets=0.1), lambda rng: dict(max_steps=rng.choice([1,2,3,4])), scale=True)
 
 
